@@ -84,7 +84,8 @@ def sites(path: Path):
 
 def run_one(workdir: Path, mod: str, site, translators):
     line, c0, c1, old, new, kind, fn = site
-    tgt = workdir / "src" / "grid" / mod
+    tgt = workdir / "src" / "grid" / Path(mod).name
+    assert str(tgt.resolve()).startswith("/var/tmp/grid-sens-"), tgt
     orig = (REPO_SRC / mod).read_text()
     ls = orig.split("\n")
     assert ls[line - 1][c0:c1] == old, (mod, site, ls[line - 1][c0:c1])
@@ -120,7 +121,7 @@ def main(argv):
         elif a == "--skip-effects":
             skip_eff = True
         else:
-            mods.append(a)
+            mods.append(Path(a).name)        # module NAME only: an absolute path would escape the scratch copy
     if not mods:
         mods = sorted(p.name for p in REPO_SRC.glob("*.py") if p.name not in ("__init__.py", "_version.py"))
     translators = [t for t in TRANSLATORS if not (skip_eff and t == "effects")]
